@@ -34,6 +34,7 @@ class Ctx:
         self.assumptions = []
         self.explanation = ''
         self.not_decided = ''
+        self.selftest = []
 
     # ---- recording ---------------------------------------------------------------------
     def fn(self, body):
@@ -223,6 +224,8 @@ class Ctx:
                 'samples': self.obligations[:6] + [o for o in self.obligations if not o['ok']][:6],
                 'known_findings_hit': [v['key'] for v in known_hit],
                 'notes': self.notes,
+                'selftest_mutants': self.selftest,
+                'selftest_detected': len([m for m in self.selftest if m['status'] == 'detected']),
                 'exhaustive': True,
             },
             'assumptions': self.assumptions + COMMON_ASSUMPTIONS,
@@ -236,6 +239,8 @@ class Ctx:
         print('[%s] %d obligations over %d functions / %d rule ids; %d violated (%d known findings) in %.2fs'
               % (self.pid, len(self.obligations), len(self.functions), distinct_rules,
                  len(self.violations), len(known_hit), wall))
+        if self.selftest:
+            print('[%s] self-test: %d mutants: %s' % (self.pid, len(self.selftest), ', '.join('%s=%s' % (m['mutant'], m['status']) for m in self.selftest)))
         for v in known_hit:
             print('KNOWN-FINDING: property=%s %s (%s)' % (self.pid, v['key'], v.get('at', '?')))
         if unknown:
